@@ -83,7 +83,7 @@ fn viol(sig: String, msg: String, f: &[u8], suf: &[u8]) -> Violation {
 }
 
 pub fn run(ctx: &Ctx, replay: Option<&J>) -> CheckResult {
-    let rule = "valid frames of every payload length L=0..=1023 (random payloads, random reserved bits) plus every golden frame (typed decode) x \
+    let rule = "valid frames of every payload length L=0..=1023 (random payloads, random reserved bits) plus every golden frame (typed decode) and structured / hostile frames of every supported number (incl. 1029 frames whose byte counter exceeds the payload) x \
         suffixes {1,2,3 bytes, many random bytes, another valid frame, a copy of the frame itself, a damaged copy, >1029 random bytes, 0xD3 runs, 0x00/0xFF runs}; oracle: (frame_len, data_len, payload, \
         frame bytes, crc, message_number, Debug of decoded message) identical with and without suffix, message_number == first 12 payload bits \
         iff L>=2 else None (then decode is Empty); next_msg_frame delivers the same frame from offset 0 with and without the suffix. non-trivial = non-empty suffix; distinct = hash(frame, suffix)"
@@ -174,6 +174,58 @@ pub fn run(ctx: &Ctx, replay: Option<&J>) -> CheckResult {
     for (e, v) in parts {
         ev.merge(e);
         vs.extend(v);
+    }
+    // structured and hostile frames of every supported message number (counts beyond the body, text byte counters beyond the
+    // payload, truncated bodies ...) followed by suffixes that look like more message body (ASCII text, zeros, ones, a copy)
+    {
+        let nums: Vec<u16> = crate::registry::MSG_TABLE.iter().map(|r| r.number).collect();
+        let per = ctx.n(400, 12_000);
+        let sparts: Vec<(Evidence, Vec<Violation>)> = nums
+            .par_iter()
+            .map(|n| {
+                let mut ev = Evidence::new();
+                ev.sample_cap = 0;
+                let mut vs = Vec::new();
+                let mut rng = ctx.rng("c13-structured", *n as u64);
+                let reps = if *n == 1029 { per * 20 } else { per };
+                for _ in 0..reps {
+                    let (f, class, _) = crate::msggen::any_frame(&mut rng, *n, &[]);
+                    let text: Vec<u8> = (0..300).map(|i| b"The quick brown fox 0123456789 "[i % 31]).collect();
+                    let sufs: [Vec<u8>; 4] = [text, vec![0u8; 64], vec![0xFFu8; 64], f.clone()];
+                    let suf = &sufs[rng.below(4) as usize];
+                    ev.evaluations += 1;
+                    let r = catch(|| oracle(&f, suf));
+                    let r = match r {
+                        Ok(r) => r,
+                        Err(p) => Err((panic_signature(&p), format!("panic: {}", p))),
+                    };
+                    match r {
+                        Ok(()) => {
+                            let mut key = f.clone();
+                            key.push(suf.len() as u8);
+                            ev.nontrivial_bytes(&key);
+                            if ev.evaluations % 32 == 0 {
+                                ev.class(&format!("structured/{}", class));
+                            }
+                        }
+                        Err((sig, msg)) => {
+                            if vs.is_empty() {
+                                vs.push(viol(sig, msg, &f, suf));
+                            }
+                        }
+                    }
+                }
+                (ev, vs)
+            })
+            .collect();
+        for (e, v) in sparts {
+            ev.merge(e);
+            for x in v {
+                if !vs.iter().any(|y: &Violation| y.signature == x.signature) {
+                    vs.push(x);
+                }
+            }
+        }
     }
     vs.truncate(5);
     ev.extra.insert("payload_lengths_enumerated".into(), json!("0..=1023 (all) + golden frames"));
